@@ -141,6 +141,34 @@ fn matches_args(ts: &TokenStream) -> Option<(Expr, Pat, Option<Expr>)> {
     syn::parse2::<M>(ts.clone()).ok().map(|m| (m.0, m.1, m.2))
 }
 
+/// select_ref!{ pat [if guard] => expr, ... } (chumsky) and similar arm-list macros
+fn arms_args(ts: &TokenStream) -> Option<Vec<(Pat, Option<Expr>, Expr)>> {
+    struct A(Vec<(Pat, Option<Expr>, Expr)>);
+    impl syn::parse::Parse for A {
+        fn parse(input: syn::parse::ParseStream) -> Result<Self> {
+            let mut v = vec![];
+            while !input.is_empty() {
+                let p = Pat::parse_multi_with_leading_vert(input)?;
+                let g = if input.peek(Token![if]) {
+                    input.parse::<Token![if]>()?;
+                    Some(input.parse::<Expr>()?)
+                } else {
+                    None
+                };
+                input.parse::<Token![=>]>()?;
+                let e: Expr = input.parse()?;
+                let _ = input.parse::<Option<Token![,]>>();
+                v.push((p, g, e));
+            }
+            if v.is_empty() {
+                return Err(input.error("no arms"));
+            }
+            Ok(A(v))
+        }
+    }
+    syn::parse2::<A>(ts.clone()).ok().map(|a| a.0)
+}
+
 fn tokens_flat(ts: &TokenStream, out: &mut Vec<Value>) {
     // flat token list with lines, for macros we cannot parse as expressions
     for tt in ts.clone() {
@@ -182,6 +210,24 @@ fn mac_json(m: &Macro) -> Value {
     }
     if let Some(args) = macro_args(&m.tokens) {
         o.insert("a".into(), Value::Array(args.iter().map(expr_json).collect()));
+    } else if let Some(arms) = arms_args(&m.tokens) {
+        o.insert(
+            "arms".into(),
+            Value::Array(
+                arms.iter()
+                    .map(|(p, g, e)| {
+                        let mut a = Map::new();
+                        a.insert("l".into(), json!(line(p)));
+                        a.insert("pat".into(), pat_json(p));
+                        if let Some(g) = g {
+                            a.insert("guard".into(), expr_json(g));
+                        }
+                        a.insert("body".into(), expr_json(e));
+                        Value::Object(a)
+                    })
+                    .collect(),
+            ),
+        );
     } else {
         let mut t = vec![];
         tokens_flat(&m.tokens, &mut t);
